@@ -26,6 +26,7 @@ import (
 	"github.com/gordian-engine/gordian/tm/tmdriver"
 	"github.com/gordian-engine/gordian/tm/tmengine/internal/tmeil"
 	"github.com/gordian-engine/gordian/tm/tmengine/internal/tmstate"
+	"github.com/gordian-engine/gordian/tm/tmengine/tmelink"
 	"github.com/gordian-engine/gordian/tm/tmstore"
 	"github.com/gordian-engine/gordian/tm/tmstore/tmmemstore"
 )
@@ -83,6 +84,7 @@ type smWorld struct {
 	viewCancel  chan struct{}
 	pendingActs []tmeil.StateMachineRoundAction
 	viewCh      chan tmeil.StateMachineRoundView
+	blockDataCh chan tmelink.BlockDataArrival
 	lastSent    map[string]uint32
 
 	timers []*smTimer
@@ -109,6 +111,8 @@ type smWorld struct {
 	curStratH uint64
 	curStratR uint32
 	reqH      uint64 // round of the request the consensus manager is working on
+	cmH       uint64 // round in which the state machine can currently issue requests (set when an entrance is about to be answered)
+	cmR       uint32
 	reqR      uint32
 	advanceOK map[string]string // "h/r" -> reason a move to r+1 is justified
 
@@ -660,7 +664,11 @@ func runSM(s *vsimcore.Sim, p vsimcore.Params) vsimcore.RunInfo {
 		// consensus manager took the request (the hand-off is synchronous)
 		if strings.Contains(site, "ConsensusManager.kernel") {
 			w.mu.Lock()
-			w.reqH, w.reqR = w.smH, w.smR
+			// (cmH/cmR, not smH/smR: within one event the state machine may hand a request over and
+			// then enter the next round while the manager is still receiving; the manager's round
+			// changes only once the mirror has answered the entrance, before which the state machine
+			// cannot issue anything for the new round)
+			w.reqH, w.reqR = w.cmH, w.cmR
 			w.mu.Unlock()
 		}
 	})
@@ -674,6 +682,7 @@ func runSM(s *vsimcore.Sim, p vsimcore.Params) vsimcore.RunInfo {
 		entranceOut := make(chan tmeil.StateMachineRoundEntrance)
 		finReq := make(chan tmdriver.FinalizeBlockRequest)
 		w.viewCh = viewIn
+		w.blockDataCh = make(chan tmelink.BlockDataArrival, 4)
 		genesis := fx.DefaultGenesis()
 		// the pre-genesis finalization, as tmengine.New stores it
 		gh, _ := genesis.Header(fx.HashScheme)
@@ -690,6 +699,7 @@ func runSM(s *vsimcore.Sim, p vsimcore.Params) vsimcore.RunInfo {
 			RoundTimer:                        smRT{w},
 			ConsensusStrategy:                 smStrategy{w},
 			RoundViewInCh:                     viewIn,
+			BlockDataArrivalCh:                w.blockDataCh,
 			RoundEntranceOutCh:                entranceOut,
 			FinalizeBlockRequestCh:            finReq,
 			Watchdog:                          wd,
@@ -886,6 +896,7 @@ func (w *smWorld) onEntrance(re tmeil.StateMachineRoundEntrance, lateStart bool)
 	s.ParkID("sm", "mirror", "entrance-response")
 	// the mirror is at least where the state machine is
 	w.mu.Lock()
+	w.cmH, w.cmR = re.H, re.R
 	if re.H > w.netH || (re.H == w.netH && re.R > w.netR) {
 		w.netH, w.netR = re.H, re.R
 	}
@@ -1134,16 +1145,35 @@ func (w *smWorld) mirrorActions() []vsimcore.Action {
 			w.viewBusy = true
 			cancelSend := make(chan struct{})
 			w.viewCancel = cancelSend
+			msg := tmeil.StateMachineRoundView{VRV: v}
+			_, hd := w.committed[h]
+			if r < 3 && !hd && w.finalizeAsked[h] == "" && !w.blockQuorum(rd) && s.Pct("view-with-jump-ahead", 12) {
+				// the kernel coalesces: one update carries the round's newest view and a jump-ahead to the
+				// next round (the state machine was slow to read while the network moved on)
+				nr := w.round(h, r+1)
+				for i := 1; i < w.n && 3*w.votedPower(nr, 0) < w.total(); i++ {
+					if nr.votes[0][""] == nil {
+						nr.votes[0][""] = map[int]bool{}
+					}
+					nr.votes[0][""][i] = true
+					nr.version++
+				}
+				jv := w.vrv(nr)
+				msg.JumpAheadRoundView = &jv
+				w.advanceOK[rk] = "jump-ahead"
+				w.netR = r + 1
+				w.s.Probe("view_and_jump_ahead_in_one_update")
+			}
 			w.mu.Unlock()
 			go func() {
 				select {
-				case w.viewCh <- tmeil.StateMachineRoundView{VRV: v}:
+				case w.viewCh <- msg:
 					w.mu.Lock()
 					w.lastSent[rk] = v.Version
 					w.viewBusy = false
 					w.mu.Unlock()
 					w.noteShown(v)
-					w.event("view %s v%d delivered (%s)", rk, v.Version, smViewDesc(v))
+					w.event("view %s v%d delivered (%s) jump-ahead=%t", rk, v.Version, smViewDesc(v), msg.JumpAheadRoundView != nil)
 				case <-cancelSend:
 					// the state machine entered another round first: the kernel would never
 					// complete this send (it takes the round entrance instead)
@@ -1183,6 +1213,28 @@ func (w *smWorld) mirrorActions() []vsimcore.Action {
 	// (only in a third of the runs: the two known 100 ms "blocked send" panics would otherwise end one run in five)
 	if w.clockPasses {
 		acts = append(acts, vsimcore.Action{Name: "clock advances 200ms", Weight: 1, Do: func() { time.Sleep(200 * time.Millisecond) }})
+	}
+	// 3c. the data of a proposed block arrives at the driver, which tells the state machine
+	w.mu.Lock()
+	var dataIDs []string
+	for _, ph := range rd.phs {
+		dataIDs = append(dataIDs, string(ph.Header.DataID))
+	}
+	w.mu.Unlock()
+	dataIDs = append(dataIDs, "data-nobody-proposed")
+	if len(w.blockDataCh) < cap(w.blockDataCh) {
+		acts = append(acts, vsimcore.Action{Name: "block data arrives " + rk, Weight: 1, Do: func() {
+			a := tmelink.BlockDataArrival{Height: h, Round: r, ID: dataIDs[s.Choose("block-data-id", len(dataIDs))]}
+			if s.Pct("block-data-other-round", 10) {
+				a.Round++
+			}
+			w.event("block data %q arrives for %d/%d", a.ID, a.Height, a.Round)
+			w.s.Probe("block_data_arrival")
+			select {
+			case w.blockDataCh <- a:
+			default:
+			}
+		}})
 	}
 	// 4. the network moves on: jump-ahead to a later round of this height
 	w.mu.Lock()
@@ -1254,6 +1306,20 @@ func (w *smWorld) mirrorActions() []vsimcore.Action {
 		}
 	}
 	return acts
+}
+
+// blockQuorum reports (with w.mu held) whether some block has more than 2/3 of the precommit power in rd.
+func (w *smWorld) blockQuorum(rd *smRound) bool {
+	for hsh, set := range rd.votes[1] {
+		var pp uint64
+		for i := range set {
+			pp += w.pow(i)
+		}
+		if hsh != "" && 3*pp > 2*w.total() {
+			return true
+		}
+	}
+	return false
 }
 
 func (w *smWorld) votedPower(rd *smRound, kind int) uint64 {
